@@ -109,6 +109,8 @@ def run(out: Outcome, drv, frontends=None):
         fes = list(frontends)
         if tab["n"] > 0 and (out.tier == "thorough" or it % 2 == 0):
             fes += ["xarray_obs", "netcdf_obs"]
+        if tab["n"] > 0 and (out.tier == "thorough" or it % 2 == 1):
+            fes += ["pandas_named", "xarray_named", "netcdf_named"]
         if tab["n"] > 0 and (out.tier == "thorough" or it % 5 == 0):
             fes += ["netcdf_file", "xarray_file"]
         for fe in fes:
